@@ -346,8 +346,29 @@ func resultVia(b *ssa.BasicBlock, idx int) (ssa.Value, *ssa.Return) {
 		}
 		return v
 	}
+	enter := func(cur, next *ssa.BasicBlock) *ssa.BasicBlock {
+		pi := -1
+		for i, p := range next.Preds {
+			if p == cur {
+				pi = i
+			}
+		}
+		if pi < 0 {
+			return nil
+		}
+		for _, in := range next.Instrs {
+			ph, ok := in.(*ssa.Phi)
+			if !ok {
+				break
+			}
+			if pi < len(ph.Edges) {
+				env[ph] = resolve(ph.Edges[pi])
+			}
+		}
+		return next
+	}
 	cur := b
-	for step := 0; step < 10 && cur != nil && len(cur.Instrs) > 0; step++ {
+	for step := 0; step < 12 && cur != nil && len(cur.Instrs) > 0; step++ {
 		switch last := cur.Instrs[len(cur.Instrs)-1].(type) {
 		case *ssa.Return:
 			if len(last.Results) == 0 {
@@ -366,29 +387,115 @@ func resultVia(b *ssa.BasicBlock, idx int) (ssa.Value, *ssa.Return) {
 			}
 			return resolve(v), last
 		case *ssa.Jump:
-			next := cur.Succs[0]
-			pi := -1
-			for i, p := range next.Preds {
-				if p == cur {
-					pi = i
-				}
-			}
-			if pi < 0 {
+			cur = enter(cur, cur.Succs[0])
+		case *ssa.If:
+			// a test of a carried result against nil, decided by the value carried on this way: the nil constant, or a value
+			// that cannot be nil (resultNonNil)
+			bo, ok := last.Cond.(*ssa.BinOp)
+			if !ok || (bo.Op != token.EQL && bo.Op != token.NEQ) {
 				return nil, nil
 			}
-			for _, in := range next.Instrs {
-				ph, ok := in.(*ssa.Phi)
-				if !ok {
-					break
-				}
-				if pi < len(ph.Edges) {
-					env[ph] = resolve(ph.Edges[pi])
-				}
+			var x ssa.Value
+			switch {
+			case isNilConst(bo.Y):
+				x = bo.X
+			case isNilConst(bo.X):
+				x = bo.Y
+			default:
+				return nil, nil
 			}
-			cur = next
+			v := resolve(x)
+			isNil := isNilConst(v)
+			if !isNil && !resultNonNil(v, b) {
+				return nil, nil
+			}
+			// successor 0 is taken when the condition is true
+			if (bo.Op == token.EQL) == isNil {
+				next := cur.Succs[0]
+				cur = enter(cur, next)
+			} else {
+				next := cur.Succs[1]
+				cur = enter(cur, next)
+			}
 		default:
 			return nil, nil
 		}
 	}
 	return nil, nil
+}
+
+// resultNonNil: a value set by a select case / exit block `from` that cannot be nil: an allocation or box, the load of a
+// package-level error variable that only the package initialiser assigns (a sentinel made with errors.New), or
+// ctx.Err() evaluated in the block that was entered because ctx.Done() fired (the documented contract of Context)
+func resultNonNil(v ssa.Value, from *ssa.BasicBlock) bool {
+	switch t := v.(type) {
+	case *ssa.Alloc, *ssa.MakeInterface:
+		return true
+	case *ssa.UnOp:
+		if g, ok := t.X.(*ssa.Global); ok && t.Op == token.MUL && isErrorType(t.Type()) {
+			return globalAssignedOnlyByInit(g)
+		}
+	case *ssa.Call:
+		if t.Call.IsInvoke() && t.Call.Method.Name() == "Err" && namedIs(t.Call.Value.Type(), "context", "Context") && t.Block() == from {
+			return true
+		}
+		if f := t.Call.StaticCallee(); f != nil {
+			k := funcKey(f)
+			if k == "errors.New" || k == "fmt.Errorf" {
+				return true
+			}
+		}
+	case *ssa.Extract:
+		// the packet received in this select
+		if _, isSel := t.Tuple.(*ssa.Select); isSel {
+			return false
+		}
+	}
+	return false
+}
+
+var globalInitOnlyMemo = map[*ssa.Global]bool{}
+
+func globalAssignedOnlyByInit(g *ssa.Global) bool {
+	if v, ok := globalInitOnlyMemo[g]; ok {
+		return v
+	}
+	res := true
+	if g.Pkg == nil {
+		res = false
+	} else {
+		for _, m := range g.Pkg.Members {
+			fn, ok := m.(*ssa.Function)
+			if !ok {
+				continue
+			}
+			var walk func(f *ssa.Function)
+			walk = func(f *ssa.Function) {
+				if f.Name() == "init" && f.Parent() == nil {
+					return
+				}
+				allInstrs(f, func(in ssa.Instruction) {
+					for _, op := range in.Operands(nil) {
+						if op != nil && *op == ssa.Value(g) {
+							if ld, isLoad := in.(*ssa.UnOp); !isLoad || ld.Op != token.MUL {
+								res = false
+							}
+						}
+					}
+				})
+				for _, an := range f.AnonFuncs {
+					walk(an)
+				}
+			}
+			walk(fn)
+		}
+		// methods
+		for _, m := range g.Pkg.Members {
+			if tn, ok := m.(*ssa.Type); ok {
+				_ = tn
+			}
+		}
+	}
+	globalInitOnlyMemo[g] = res
+	return res
 }
